@@ -221,7 +221,7 @@ impl Prop for C13 {
     fn budget(tier: Tier) -> Budget {
         match tier {
             Tier::Quick => Budget { cases: 9600, shards: 16 },
-            Tier::Thorough => Budget { cases: 76800, shards: 16 },
+            Tier::Thorough => Budget { cases: 691200, shards: 16 },
         }
     }
 
